@@ -1,17 +1,21 @@
 package cases
 
 import (
+	"bufio"
 	"bytes"
 	"compress/gzip"
+	"encoding/base64"
 	"encoding/json"
 	"fmt"
 	"io/ioutil"
 	"math/rand"
+	"net"
 	"net/http"
 	"regexp"
 	"strconv"
 	"sync"
 	"sync/atomic"
+	"time"
 
 	"github.com/andybalholm/brotli"
 	"github.com/golang/snappy"
@@ -38,6 +42,7 @@ type respCase struct {
 	Members   int    `json:"members"`
 	Storm     bool   `json:"storm"`
 	Cut       bool   `json:"cut"`
+	Slow      bool   `json:"slow"`
 	Requests  int    `json:"requests"`
 
 	body    []byte
@@ -236,6 +241,81 @@ func respStorm(w *world.World, raw json.RawMessage, n int) map[string]interface{
 	return map[string]interface{}{"case": raw, "asked": int(asked), "compressed": int(compressed)}
 }
 
+// respSlow: a real listening server, a client that does not read its (large, compressed per request) answer for a while, and
+// a second client served meanwhile: both receive the bytes the upstream produced for them
+func respSlow(w *world.World, raw json.RawMessage) (map[string]interface{}, error) {
+	addr := fmt.Sprintf("127.0.0.1:%d", freePort())
+	server.Reset([]config.ServerConfig{{Addr: addr, Locations: []string{"loc"}, Cache: "resp"}})
+	if err := server.Start(); err != nil {
+		return nil, err
+	}
+	up := false
+	for i := 0; i < 300 && !up; i++ {
+		if c, err := net.DialTimeout("tcp", addr, 100*time.Millisecond); err == nil {
+			_ = c.Close()
+			up = true
+		} else {
+			time.Sleep(10 * time.Millisecond)
+		}
+	}
+	if !up {
+		return nil, fmt.Errorf("slow-client case: server did not start")
+	}
+	old := w.Policy
+	defer func() { w.Policy = old }()
+	mk := func(seed int64) []byte {
+		rb := make([]byte, 9<<20)
+		rand.New(rand.NewSource(seed)).Read(rb)
+		return []byte(base64.StdEncoding.EncodeToString(rb)) // 12 MB of text that gzip shrinks by a quarter only
+	}
+	var answered int32
+	w.Policy = func(ri *world.ReqInfo, req *http.Request) world.Outcome {
+		h := http.Header{}
+		h.Set("Content-Type", "text/plain")
+		h.Set("Cache-Control", "no-cache")
+		atomic.AddInt32(&answered, 1)
+		return world.Outcome{Kind: "raw", Header: h, Status: 200, Body: ri.Case.([]byte)}
+	}
+	b1, b2 := mk(1), mk(2)
+	ri1 := w.Register("resp", "GET", "h", "/slow/1")
+	ri1.Case = b1
+	conn, err := net.Dial("tcp", addr)
+	if err != nil {
+		return nil, err
+	}
+	defer conn.Close()
+	_, _ = fmt.Fprintf(conn, "GET /slow/1 HTTP/1.1\r\nHost: h\r\nAccept-Encoding: gzip\r\nX-Verif-Rid: %d\r\nConnection: close\r\n\r\n", ri1.Rid)
+	for i := 0; i < 500 && atomic.LoadInt32(&answered) < 1; i++ {
+		time.Sleep(10 * time.Millisecond)
+	}
+	time.Sleep(1500 * time.Millisecond) // pike compresses the answer and starts sending: the first client's socket fills up
+	ri2 := w.Register("resp", "GET", "h", "/slow/2")
+	ri2.Case = b2
+	req, _ := http.NewRequest("GET", "http://"+addr+"/slow/2", nil)
+	req.Host = "h"
+	req.Header.Set("Accept-Encoding", "gzip")
+	req.Header.Set("X-Verif-Rid", strconv.Itoa(ri2.Rid))
+	client := &http.Client{Timeout: 60 * time.Second, Transport: &http.Transport{DisableCompression: true}}
+	decoded := func(ce string, body []byte, want []byte) bool {
+		dec, err := refDecode(ce, body)
+		return err == nil && bytes.Equal(dec, want)
+	}
+	secondOk := false
+	if resp, err := client.Do(req); err == nil {
+		body, rerr := ioutil.ReadAll(resp.Body)
+		_ = resp.Body.Close()
+		secondOk = rerr == nil && resp.StatusCode == 200 && decoded(resp.Header.Get("Content-Encoding"), body, b2)
+	}
+	firstOk := false
+	_ = conn.SetReadDeadline(time.Now().Add(60 * time.Second))
+	if resp, err := http.ReadResponse(bufio.NewReader(conn), nil); err == nil {
+		body, rerr := ioutil.ReadAll(resp.Body)
+		firstOk = rerr == nil && resp.StatusCode == 200 && decoded(resp.Header.Get("Content-Encoding"), body, b1)
+	}
+	w.TakeTrace()
+	return map[string]interface{}{"case": raw, "firstOk": firstOk, "secondOk": secondOk}, nil
+}
+
 // Response runs the C05/C13 cases
 func Response(w *world.World, raws []json.RawMessage) ([]interface{}, error) {
 	w.Configure([]world.DispCfg{{Name: "resp", Size: 0, HfpTTL: 300, HasStore: true}})
@@ -405,6 +485,14 @@ func Response(w *world.World, raws []json.RawMessage) ([]interface{}, error) {
 			}
 			if c.Cut {
 				out = append(out, respCut(w, raws[i]))
+				continue
+			}
+			if c.Slow {
+				o, err := respSlow(w, raws[i])
+				if err != nil {
+					return nil, err
+				}
+				out = append(out, o)
 				continue
 			}
 			c.body = makeBody(c, i)
